@@ -419,3 +419,33 @@ func (o *ordinals) key(fn, kind, desc string) string {
 	o.m[base] = n + 1
 	return fmt.Sprintf("%s#%d", base, n)
 }
+
+// unspill looks through go/ssa's spills: a load of a local cell which is stored
+// exactly once (defer-spilled results, single-assignment captured variables)
+// denotes the stored value. Conversions are stripped as well.
+func unspill(v ssa.Value) ssa.Value {
+	for d := 0; d < 8; d++ {
+		v = stripConv(v)
+		u, ok := v.(*ssa.UnOp)
+		if !ok || u.Op != token.MUL {
+			return v
+		}
+		a, ok := u.X.(*ssa.Alloc)
+		if !ok {
+			return v
+		}
+		var stored ssa.Value
+		n := 0
+		for _, ref := range *a.Referrers() {
+			if st, ok := ref.(*ssa.Store); ok && st.Addr == a {
+				n++
+				stored = st.Val
+			}
+		}
+		if n != 1 {
+			return v
+		}
+		v = stored
+	}
+	return v
+}
